@@ -276,7 +276,8 @@ func sortStrings(s []string) {
 func ReproNaNRank() (bool, string) {
 	c := age.Collator[float64]().Make()
 	n := nan
-	if c.RankValues(1, n) != age.GreaterRank && c.RankValues(n, 0) != age.LesserRank && c.RankValues(1, 0) == age.GreaterRank {
+	// 1 <= NaN and NaN <= 0 although 1 > 0
+	if c.RankValues(1, n) != age.GreaterRank && c.RankValues(n, 0) != age.GreaterRank && c.RankValues(1, 0) == age.GreaterRank {
 		return true, "RankValues(1,NaN)<=, RankValues(NaN,0)<= but RankValues(1,0)=Greater (not transitive)"
 	}
 	if !c.CompareValues(n, n) && c.RankValues(n, n) == age.EqualRank {
